@@ -4,7 +4,9 @@
 For each change: git -C /repo apply patch.diff; run ./check <property> quick (evidence and
 replays redirected to a scratch directory so that /verif/evidence keeps describing the
 unchanged tree); git -C /repo checkout -- . ; record the verdict in meta.json.
-usage: seeded_run.py [--all-checks] [name ...]
+With --scratch the patch is applied to a scratch export of /repo's HEAD under /dev/shm and the
+checks run with VERIF_REPO pointing there (used while something else is reading /repo).
+usage: seeded_run.py [--all-checks] [--scratch] [name ...]
 """
 import json, os, shutil, subprocess, sys, time
 from pathlib import Path
@@ -12,6 +14,7 @@ from pathlib import Path
 V = Path(__file__).resolve().parent.parent
 names = [a for a in sys.argv[1:] if not a.startswith("--")]
 all_checks = "--all-checks" in sys.argv
+use_scratch = "--scratch" in sys.argv
 rows = []
 assert subprocess.run(["git", "-C", "/repo", "status", "--porcelain"], capture_output=True, text=True).stdout.strip() == "", "/repo not clean"
 for d in sorted((V / "seeded").iterdir()):
@@ -21,7 +24,13 @@ for d in sorted((V / "seeded").iterdir()):
     prop = meta["property"]
     scratch = Path(f"/dev/shm/simverif-seeded-{os.getpid()}-{d.name}")
     env = dict(os.environ, VERIF_EVIDENCE_DIR=str(scratch / "evidence"), VERIF_REPLAY_DIR=str(scratch / "replays"))
-    subprocess.check_call(["git", "-C", "/repo", "apply", str(d / "patch.diff")])
+    if use_scratch:
+        (scratch / "repo").mkdir(parents=True)
+        subprocess.check_call(f"git -C /repo archive HEAD | tar -x -C {scratch}/repo", shell=True)
+        subprocess.check_call(["git", "apply", "--directory", str(scratch / "repo").lstrip("/"), "--unsafe-paths", str(d / "patch.diff")], cwd="/")
+        env["VERIF_REPO"] = str(scratch / "repo")
+    else:
+        subprocess.check_call(["git", "-C", "/repo", "apply", str(d / "patch.diff")])
     verdicts = {}
     try:
         for p in (["C06", "C13", "C15", "C16", "C17"] if all_checks else [prop]):
@@ -31,7 +40,8 @@ for d in sorted((V / "seeded").iterdir()):
             verdicts[p] = {"exit": proc.returncode, "sigs": sigs, "wall_s": round(time.time() - t0),
                            "first_line": next((l for l in proc.stdout.splitlines() if l.startswith(("  run=", "HARNESS"))), "")[:300]}
     finally:
-        subprocess.check_call(["git", "-C", "/repo", "checkout", "--", "."])
+        if not use_scratch:
+            subprocess.check_call(["git", "-C", "/repo", "checkout", "--", "."])
         shutil.rmtree(scratch, ignore_errors=True)
     meta["check_results"] = verdicts
     meta["caught_by_own_property_check"] = verdicts[prop]["exit"] == 1
